@@ -215,7 +215,46 @@ def _run_audit_file(pid, text, timeout):
     return rc, out + "\n" + err
 
 
+def _olean_fingerprint():
+    import hashlib
+    h = hashlib.sha256()
+    base = os.path.join(LEAN, ".lake", "build", "lib", "lean")
+    for root, _, files in sorted(os.walk(base)):
+        for fn in sorted(files):
+            if fn.endswith(".olean"):
+                p = os.path.join(root, fn)
+                h.update(os.path.relpath(p, base).encode())
+                with open(p, "rb") as f:
+                    h.update(hashlib.sha256(f.read()).digest())
+    return h.hexdigest()
+
+
 def audit_axioms(pid, modules, theorems, timeout=3000):
+    """Cached wrapper: the result of the audit is a function of the compiled modules (all .olean files of the project)
+    and of the list of obligations, so it is memoised under that key in lean/.lake/verif_audit_cache.json."""
+    import hashlib
+    cache_path = os.path.join(LEAN, ".lake", "verif_audit_cache.json")
+    try:
+        key = hashlib.sha256((_olean_fingerprint() + "|" + "|".join(modules) + "|" + "|".join(theorems)).encode()).hexdigest()
+        with open(cache_path) as f:
+            cache = json.load(f)
+    except (OSError, ValueError):
+        cache = {}
+        key = None if "key" not in dir() else key
+    if key and key in cache:
+        return cache[key], "cached axiom audit (compiled modules unchanged)"
+    res, text = _audit_axioms_uncached(pid, modules, theorems, timeout)
+    if key and all(v is not None for v in res.values()):
+        cache = {k: v for k, v in list(cache.items())[-40:]}
+        cache[key] = res
+        try:
+            write_json(cache_path, cache)
+        except OSError:
+            pass
+    return res, text
+
+
+def _audit_axioms_uncached(pid, modules, theorems, timeout=3000):
     """Axioms of every obligation.  Fast path: ONE `#print axioms` on an aggregate theorem whose proof term mentions
     every obligation (the union of their axioms; a subset of the allowed set for the union is one for each member).
     Fallback (some name missing, or a foreign axiom in the union): one `#print axioms` per obligation."""
